@@ -347,6 +347,14 @@ pub fn run<I>(ctx: &Ctx, cases: I, hooks: &Hooks) -> Stats
 where
     I: Iterator<Item = Case> + Send,
 {
+    run_on(ctx, &ctx.runner_checked, cases, hooks)
+}
+
+/// the same on another build of the runner (the optimised one)
+pub fn run_on<I>(ctx: &Ctx, runner_path: &std::path::PathBuf, cases: I, hooks: &Hooks) -> Stats
+where
+    I: Iterator<Item = Case> + Send,
+{
     struct Batcher<I: Iterator<Item = Case>> {
         it: I,
         n: usize,
@@ -368,7 +376,7 @@ where
             }
         }
     }
-    let parts = par_map(&ctx.runner_checked, ctx.workers, Batcher { it: cases, n: 24 }, |runner, i, batch| {
+    let parts = par_map(runner_path, ctx.workers, Batcher { it: cases, n: 24 }, |runner, i, batch| {
         runner.timeout = std::time::Duration::from_secs(30);
         runner.recycle_after = 400;
         judge_batch(runner, hooks, batch, i < 3)
